@@ -273,6 +273,8 @@ func (t *Thread) processIncomingInterest(packet *defn.Pkt) {
 					packet.Raw = csWire
 					packet.Name = csData.NameV
 					strategy.AfterContentStoreHit(packet, pitEntry, incomingFace.FaceID())
+					// Schedule the PIT entry for removal (immediately if nothing else is pending)
+					table.UpdateExpirationTimer(pitEntry)
 					return
 				} else if err != nil {
 					core.LogError(t, "Error copying CS entry: ", err)
